@@ -244,5 +244,79 @@ def _regex_prefix(interp, args, kwargs, node):
         piece = z3.If(z3.Length(obs(k - 1)) > 1, z3.Concat(S_("["), obs(k - 1), S_("]")), obs(k - 1))
         piece = z3.Concat(piece, z3.If(rowsum(k - 1) != n, S_("?"), S_("")))
         return z3.If(k <= 0, S_(""), z3.Concat(f(k - 1), piece))
-    f = S._recfun(f"regex_prefix[{sy['sid']}|{z3.simplify(n).sexpr()}]", [z3.IntSort()], z3.StringSort(), build)
+    f = S._recfun(f"regex_prefix[{sy['sid']};{z3.simplify(n).sexpr()}]", [z3.IntSort()], z3.StringSort(), build)
     return VStr(f(to_int(i)))
+
+
+# ---- colour look-up tables (labels_to_colors_hls) ----------------------------------------------------------------------------
+BLACK = None
+
+
+def _black(interp):
+    return E._arg_term(interp, VList(ConcreteSeq([VInt(0), VInt(0), VInt(0)])))
+
+
+@extern("seaborn.hls_palette")
+def _hls_palette(interp, args, kwargs, node):
+    """hls_palette(n, l=, s=): n colours evenly spaced in hue: pairwise different, none of them black (for s > 0, l > 0)"""
+    n = args[0] if args else kwargs.get("n_colors")
+    if not isinstance(n, VInt) or len(args) > 1:
+        raise Unsupported("hls_palette argument form")
+    kw = {k: kwargs[k] for k in sorted(kwargs.keys()) if k != "n_colors"}
+    ctx = interp.ctx
+    ts = [n.term] + [E._arg_term(interp, v) for v in kw.values()]
+    f = z3.Function("hls_colour[" + ",".join(kw) + ";" + ",".join(str(t.sort()) for t in ts) + "]", *([t.sort() for t in ts] + [z3.IntSort(), OBJ]))
+    j, j2 = z3.Int("j!hls"), z3.Int("j2!hls")
+    col = lambda q: f(*(ts + [q]))
+    ctx.assume(z3.ForAll([j, j2], z3.Implies(z3.And(0 <= j, j < j2, j2 < n.term), col(j) != col(j2))),
+               "extern:seaborn.hls_palette(n, ...) returns n pairwise different colours, none of them black [0, 0, 0] (assumed of seaborn)")
+    ctx.assume(z3.ForAll([j], z3.Implies(z3.And(0 <= j, j < n.term), col(j) != _black(interp)), patterns=[col(j)]))
+    return interp.born(VList(SymSeq(n.term, lambda q: VObj("colour", col(q)), None), "list"))
+
+
+_dict_prev = E.BUILTINS["dict"]
+
+
+def _dict2(interp, args, kwargs, node):
+    """dict(zip(keys, values)) over symbolic sequences with pairwise distinct string keys: k -> values[position of k]"""
+    if len(args) == 1 and not kwargs and isinstance(args[0], E.VZip) and len(args[0].its) == 2:
+        ks, vs = args[0].its
+        vk, vv = E.ordered_view(interp, ks, node), E.ordered_view(interp, vs, node)
+        if vk is not None and vv is not None and isinstance(getattr(ks.content, "elem_kind", None), T_StrT):
+            ctx = interp.ctx
+            n = z3.If(vk[0] < vv[0], vk[0], vv[0])
+            pos = ctx.fresh_fun("key_pos", z3.StringSort(), z3.IntSort())
+            j = z3.Int("j!dz")
+            kat = lambda q: vk[1](q).term
+            ctx.assume(z3.ForAll([j], z3.Implies(z3.And(0 <= j, j < n), pos(kat(j)) == j), patterns=[kat(j)]),
+                       "python:dict(zip(keys, values)) with pairwise distinct keys maps keys[j] to values[j]")
+            i, i2 = z3.Int("i!dz"), z3.Int("i2!dz")
+            if not interp.spec_mode:
+                short = (interp.current_qualname or "").replace("pyrepseq.", "")
+                ctx.oblige(f"{short}/call-pre[dict(zip(...)): keys pairwise distinct]@L{getattr(node, 'lineno', '?')}",
+                           z3.ForAll([i, i2], z3.Implies(z3.And(0 <= i, i < i2, i2 < n), kat(i) != kat(i2))), kind="call-pre",
+                           line=getattr(node, "lineno", None))
+            dom = lambda k: z3.Exists([j], z3.And(0 <= j, j < n, kat(j) == k.term))
+            d = VDict(dom=lambda k: z3.And(0 <= pos(k.term), pos(k.term) < n, kat(pos(k.term)) == k.term),
+                      get=lambda k: vv[1](pos(k.term)), key_kind=T_Str, val_kind=None)
+            return interp.born(d)
+    return _dict_prev(interp, args, kwargs, node)
+
+
+from .types import StrT as T_StrT, Str as T_Str
+E.BUILTINS["dict"] = _dict2
+
+
+@S.spec("occurrences")
+def _occurrences(interp, args, kwargs, node):
+    """occurrences(labels, x): how often x occurs in labels (the count numpy.unique reports for x)"""
+    labels, x = args
+    from .ext_numpy import seq_id
+    f = z3.Function(f"occurrences[{seq_id(labels)}]", z3.StringSort(), z3.IntSort())
+    return VInt(f(x.term))
+
+
+@S.spec("is_black")
+def _is_black(interp, args, kwargs, node):
+    v = args[0]
+    return VBool(E._arg_term(interp, v) == _black(interp))
